@@ -377,7 +377,8 @@ func staticSites() []staticSite {
 var c04Strings = []string{"plain", "x#", "##", "#é", "a# b", "é#", "a&b", `a"b`, "a'b", `say "hi"`, `back\slash`, "tick`tock", `a\nb`, `\"`, `\x`, `\t`, "{x}", "# h", "a#b", "50% off", "a&b", "<b>", "it's", "ünï", "日本", "a😀b", "x}y", "{", "q?", "a:b", "a,b", "a=b", "~☢<", ">☢~", "tab\there", `\`, `\\`, `"`, "`", "'", "&amp;", "a-b_c", "x.y", "@k", "a/b"}
 
 func c04(c *Ctx) {
-	c.Rep.TieObs = []string{"O-emit.text (generated Go, byte for byte)", "O-render"}
+	c.tieQuote()
+	c.Rep.TieObs = []string{"O-emit.text (generated Go, byte for byte)", "O-render", "O-std: goLiteral (strconv.Quote) vs quoteBody, and strconv.Unquote vs litDecode, on bytes / runes at every IsPrint boundary / random byte strings"}
 	c.Rep.Rule = "every static-content position of the grammar (18) x the strings of the adversarial alphabet that the position's documented lexical restrictions admit, one template per (position, string); oracle: the generated file must parse/gofmt/build, and the rendered output must equal the generator intent (raw positions byte for byte; escaped positions character for character once entities are decoded); distinct = distinct (position, string)"
 	f := &gen.File{Package: "main"}
 	f.Chrome = append(f.Chrome, gen.Chrome+"\nfunc f2(a, b string) string { return a + b }\n")
